@@ -3,6 +3,7 @@ package actionlint
 import (
 	"fmt"
 	"sort"
+	"strconv"
 	"strings"
 )
 
@@ -264,7 +265,12 @@ func (ty *ObjectType) String() string {
 		} else {
 			b.WriteString("; ")
 		}
-		b.WriteString(p)
+		if strings.ContainsAny(p, " \t\r\n;:{}\"") {
+			// Property names come from user's input (e.g. keys of matrix). Keep the type in one line
+			b.WriteString(strconv.Quote(p))
+		} else {
+			b.WriteString(p)
+		}
 		b.WriteString(": ")
 		b.WriteString(ty.Props[p].String())
 	}
